@@ -33,6 +33,8 @@ func (o Op) String() string {
 		return fmt.Sprintf("patch(%s/%s %v %+v)", o.Store, o.ID, o.Fields, specStr(o.Spec))
 	case "delete":
 		return fmt.Sprintf("delete(%s/%s)", o.Store, o.ID)
+	case "deletewhere":
+		return fmt.Sprintf("deleteWhere(%s, name = %q)", o.Store, o.Spec.Name)
 	case "rcset":
 		return fmt.Sprintf("rcset(%s/%s.%s %v =%d)", o.Store, o.ID, o.Field, o.Keys, o.Count)
 	}
@@ -62,8 +64,9 @@ type TxSpec struct {
 	System bool `json:"system,omitempty"` // run with ctx.GetSystemContext()
 	// DeriveSystemFirst: derive a system context from the ordinary one, discard it, then work with the ordinary one
 	DeriveSystemFirst bool `json:"deriveSystemFirst,omitempty"`
-	Fail              bool `json:"fail,omitempty"`  // the caller's function returns an error after its operations succeeded
-	Batch             bool `json:"batch,omitempty"` // use Db.Batch instead of Db.Update
+	Fail              bool `json:"fail,omitempty"`   // the caller's function returns an error after its operations succeeded
+	Batch             bool `json:"batch,omitempty"`  // use Db.Batch instead of Db.Update
+	Nested            bool `json:"nested,omitempty"` // run the body through a second Db.Update on the already bound context
 }
 
 func (t TxSpec) String() string {
@@ -83,6 +86,9 @@ func (t TxSpec) String() string {
 	}
 	if t.Batch {
 		flags += " [batch]"
+	}
+	if t.Nested {
+		flags += " [nested Db.Update]"
 	}
 	return "tx{" + strings.Join(parts, "; ") + "}" + flags
 }
@@ -151,6 +157,8 @@ func (m *Model) Apply(op Op, system bool) []string {
 		return m.Update(op.Store, op.ID, *op.Spec, f, system)
 	case "delete":
 		return m.Delete(op.Store, op.ID, system)
+	case "deletewhere":
+		return m.DeleteWhere(op.Store, op.Spec.Name, system)
 	}
 	return m.applyLink(op)
 }
@@ -268,9 +276,16 @@ func (w *World) Exec(ctx boltz.MutateContext, op Op) (ExecResult, error) {
 	case "update", "patch":
 		var checker boltz.FieldChecker
 		if op.Kind == "patch" {
+			keyed := false
+			if isKid {
+				keyed = w.Cfgs[w.KidCfgs[op.Store].Parent].Keyed
+			} else {
+				keyed = w.Cfgs[op.Store].Keyed
+			}
 			fc := boltz.MapFieldChecker{}
 			for _, f := range op.Fields {
-				fc[f] = struct{}{}
+				// the checker speaks in persisted field names
+				fc[PersistKey(keyed, f)] = struct{}{}
 			}
 			checker = fc
 		}
@@ -285,6 +300,12 @@ func (w *World) Exec(ctx boltz.MutateContext, op Op) (ExecResult, error) {
 			return res, kidStore.DeleteById(ctx, op.ID)
 		}
 		return res, w.Stores[op.Store].DeleteById(ctx, op.ID)
+	case "deletewhere":
+		filter := "name = " + QuoteZql(op.Spec.Name)
+		if isKid {
+			return res, kidStore.DeleteWhere(ctx, filter)
+		}
+		return res, w.Stores[op.Store].DeleteWhere(ctx, filter)
 	}
 	key := op.Store + "." + op.Field
 	tx := ctx.Tx()
@@ -335,6 +356,11 @@ func RunTx(w *World, m *Model, tx TxSpec) TxOutcome {
 
 // RunTxWith is RunTx with a hook called at the start of the transaction function (every time it is invoked).
 func RunTxWith(w *World, m *Model, tx TxSpec, pre func(ctx boltz.MutateContext)) TxOutcome {
+	return RunTxHooks(w, m, tx, nil, pre)
+}
+
+// RunTxHooks additionally calls beforeTx with the fresh context before the transaction is opened.
+func RunTxHooks(w *World, m *Model, tx TxSpec, beforeTx func(ctx boltz.MutateContext), pre func(ctx boltz.MutateContext)) TxOutcome {
 	var out TxOutcome
 	trial := m.Clone()
 	before := w.Dump()
@@ -380,11 +406,21 @@ func RunTxWith(w *World, m *Model, tx TxSpec, pre func(ctx boltz.MutateContext))
 		}
 		return nil
 	}
-	if tx.Batch {
-		out.Err = w.Z.Db.Batch(NewCtx(), body)
-	} else {
-		out.Err = w.Z.Db.Update(NewCtx(), body)
+	run := body
+	if tx.Nested {
+		run = func(ctx boltz.MutateContext) error { return w.Z.Db.Update(ctx, body) }
 	}
+	topCtx := NewCtx()
+	if beforeTx != nil {
+		beforeTx(topCtx)
+	}
+	var txErr error
+	if tx.Batch {
+		txErr = w.Z.Db.Batch(topCtx, run)
+	} else {
+		txErr = w.Z.Db.Update(topCtx, run)
+	}
+	out.Err = txErr
 	if out.Violation != nil {
 		return out
 	}
